@@ -762,6 +762,10 @@ struct Entry {
 #[derive(Default)]
 struct ServerState {
     script: HashMap<(String, String), Entry>,
+    // a STATEFUL server (behaviours whose chain comes back to a URL it has been at: /h0 -> /h1 -> /h0 -> 200): the answers of a
+    // URL in the order they are to be given, the last one repeating; looked up before `script`
+    seq: HashMap<(String, String), Vec<Entry>>,
+    served: HashMap<(String, String), usize>,
     log: Vec<Value>,
     seg: usize,     // 0: one write, 1: byte by byte (small messages), 2: a few random segments
     seed: u64,
@@ -817,7 +821,10 @@ fn serve(mut s: TcpStream, host: &str, st: &Arc<Mutex<ServerState>>) {
     let path = target.split('?').next().unwrap_or("").to_string();
     let (wire, seg, unframed) = {
         let mut g = st.lock().unwrap();
-        let e = g.script.get(&(host.to_string(), path.clone())).cloned().unwrap_or(Entry { code: 404, location: String::new(), framing: "cl".into(), id: 1000, body: b"lost".to_vec() });
+        let key = (host.to_string(), path.clone());
+        let k = { let c = g.served.entry(key.clone()).or_insert(0); *c += 1; *c - 1 };
+        let e = g.seq.get(&key).and_then(|v| v.get(k.min(v.len().saturating_sub(1))).cloned())
+            .or_else(|| g.script.get(&key).cloned()).unwrap_or(Entry { code: 404, location: String::new(), framing: "cl".into(), id: 1000, body: b"lost".to_vec() });
         g.log.push(json!({"ev": "Req", "host": host, "path": path}));
         g.log.push(json!({"ev": "Resp", "host": host, "path": path, "code": e.code, "location": e.location, "id": e.id}));
         if !text.starts_with("GET ") { g.errors.push(format!("request is not a GET: {:?}", text.lines().next())); }
@@ -948,6 +955,7 @@ fn client_replay(level: usize) {
         for &seg in segs {
             evals += 1;
             let mut entries: HashMap<(String, String), Entry> = HashMap::new();
+            let mut seqs: HashMap<(String, String), Vec<Entry>> = HashMap::new();
             let mut bodies: HashMap<u64, Vec<u8>> = HashMap::new();
             let last = script.len() - 1;
             for (i, e) in script.iter().enumerate() {
@@ -955,8 +963,10 @@ fn client_replay(level: usize) {
                 let framing = e["framing"].as_str().unwrap().to_string();
                 let body = if framing == "none" { vec![] } else { body_for(id, i == last, &mut rng, level >= 2 && i == last && n % 50 == 0) };
                 bodies.insert(id, body.clone());
-                entries.insert((e["host"].as_str().unwrap().to_string(), e["path"].as_str().unwrap().to_string()),
-                    Entry { code: e["code"].as_u64().unwrap() as u16, location: e["location"].as_str().unwrap().to_string(), framing, id, body });
+                let key = (e["host"].as_str().unwrap().to_string(), e["path"].as_str().unwrap().to_string());
+                let ent = Entry { code: e["code"].as_u64().unwrap() as u16, location: e["location"].as_str().unwrap().to_string(), framing, id, body };
+                seqs.entry(key.clone()).or_default().push(ent.clone());
+                entries.insert(key, ent);
             }
             // the trap a non-followed Location points to
             entries.insert(("127.0.0.1".into(), "/h99".into()), Entry { code: 200, location: String::new(), framing: "cl".into(), id: 999, body: b"trap".to_vec() });
@@ -964,6 +974,8 @@ fn client_replay(level: usize) {
             {
                 let mut g = st.lock().unwrap();
                 g.script = entries;
+                g.seq = seqs;
+                g.served.clear();
                 g.log.clear();
                 g.errors.clear();
                 g.seg = seg;
@@ -1050,6 +1062,8 @@ fn client_random(n: usize) {
         {
             let mut g = st.lock().unwrap();
             g.script = entries;
+            g.seq.clear();
+            g.served.clear();
             g.log.clear();
             g.errors.clear();
             g.seg = rng.below(3);
